@@ -49,7 +49,11 @@ def class_fingerprints(cls):
               and e.value.id == 'self' and _private(e.attr):
             ops.setdefault(e.attr, set()).add('<with>')
   out = {}
+  methods = {m.name for m in cls.body
+             if isinstance(m, (ast.FunctionDef, ast.AsyncFunctionDef))}
   for a in set(stores) | set(loads):
+    if a in methods:
+      continue  # methods are matched by their bodies, not as attributes
     out[a] = [sorted(stores.get(a, ())), sorted(loads.get(a, ())),
               sorted(ops.get(a, ()))]
   return out
